@@ -44,6 +44,8 @@ MODELS = {
     4: dict(cls=8, steps="g", comp=0, ucons=[], lmis=[], metrics=1, part=0),
     5: dict(cls=2, steps="g", comp=0, ucons=[], lmis=[], metrics=1, part=1),
     6: dict(cls=5, steps="gg", comp=0, ucons=["fi"], lmis=["D2", "L1"], metrics=1, part=0),
+    7: dict(cls=1, steps="gg", comp=0, ucons=[], lmis=[], metrics=1, part=0, _heur="trace"),
+    8: dict(cls=2, steps="g", comp=0, ucons=["pi"], lmis=["S2"], metrics=2, part=0, _heur="logdet1"),
 }
 
 
@@ -87,6 +89,13 @@ def fragment(k):
         elif k == 12:     # infeasible solve after a good one
             b = pepsolve.build(dict(cls=2, steps="g")); b.pep.solve(verbose=0, solver="CLARABEL")
             b.pep.add_constraint((b.held["x"] - b.held["x0"]) ** 2 <= -1); b.pep.solve(verbose=0, solver="CLARABEL")
+        elif k == 13:     # DSL objects built WITHOUT any PEP (bare classes), e.g. a helper module building functions first
+            from PEPit.functions import SmoothConvexFunction
+            x = Point(); y = Point(); e = Expression()
+            f = SmoothConvexFunction(L=1.)
+            f.oracle(x); g = f.gradient(y)
+            c = ((x - y) ** 2 <= e)
+            PSDMatrix([[e, 1], [1, e]])
         else:
             raise KeyError(k)
 
@@ -94,13 +103,15 @@ def fragment(k):
 def run_b(bid, verbose):
     snap = []
     prog = dict(MODELS[bid])
+    heur = prog.pop("_heur", None)
+    kw = dict(dimension_reduction_heuristic=heur, eig_regularization=1e-1) if heur else {}
     prog["_on_pep"] = lambda: snap.extend(snapshot())
     buf = io.StringIO()
     out = "num"
     with contextlib.redirect_stdout(buf):
         b = pepsolve.build(prog)
         try:
-            ret = b.pep.solve(verbose=verbose, solver="CLARABEL")
+            ret = b.pep.solve(verbose=verbose, solver="CLARABEL", **kw)
             if ret is None:
                 out = "none"
         except Exception as e:
